@@ -224,8 +224,8 @@ class World:
         names = [p[0] for p in params]
         argdict = "dict(" + ", ".join(f"{n}={n}" for n in names) + ")"
         pyname = py_name(self.scn, fid)
-        if kind in ("fn", "gen", "coro"):
-            if kind == "fn":
+        if kind in ("fn", "gen", "coro", "inject"):
+            if kind in ("fn", "inject"):
                 body = f"    return _I.body({fid!r}, {argdict})\n"
             elif kind == "coro":
                 # coroutine function: the call returns at once, the body runs when the coroutine is driven (op 'next')
@@ -236,6 +236,16 @@ class World:
             exec(src, ns)
             f = ns[pyname]
             f.__module__ = "simworld"
+            if kind == "inject":
+                # a callable whose ADVERTISED signature (functools.wraps -> __wrapped__) differs from what it accepts: the
+                # first parameter is supplied by the wrapper itself
+                import functools
+
+                inner, injected = f, build_value(spec["inject"])
+
+                @functools.wraps(inner)
+                def f(*a, **k):
+                    return inner(injected, *a, **k)
             return self._decorate(spec, f)
         if kind in ("method", "cm_outer", "cm_inner", "sm_outer"):
             first = {"method": "self", "cm_outer": "cls", "cm_inner": "cls"}.get(kind)
@@ -377,6 +387,7 @@ class Interp:
         self.observer = observer
         self._tl = __import__("threading").local()
         self.clock = 0  # simulator's global event sequence number (only one thread runs at a time)
+        self.ctx_objs = {}
 
     # -- per thread
     def start_thread(self, tid):
@@ -611,7 +622,17 @@ class Interp:
         run = self.run
         run.frames.append({"kind": "ctx", "args": {}, "fid": None})
         try:
-            with jaxtyped("context"):
+            if op.get("obj") is not None:
+                # a context-manager OBJECT that the program keeps and enters again (sequentially, re-entrantly, and -- for keys
+                # starting with "shared" -- from several threads): `ctx = jaxtyped("context")` at module level is ordinary use
+                store = self.ctx_objs if str(op["obj"]).startswith("shared") else run.vars
+                key = "ctxobj:" + str(op["obj"])
+                cm = store.get(key)
+                if cm is None:
+                    cm = store[key] = jaxtyped("context")
+            else:
+                cm = jaxtyped("context")
+            with cm:
                 if self.observer is not None and hasattr(self.observer, "entered"):
                     self.observer.entered(self, run, op, path)
                 self._run_body(op["body"], op.get("exit", "ret"), path)
